@@ -21,6 +21,13 @@ CHECKS = {
             'encode(decode(encode(m))) fixed point, and object state after each decode equal to the last decoded message.',
             'No external reference (deliberately independent of C01); equality is on public wire fields, bits up to byte padding.',
             'DESIGN.md 4 C02'),
+    'C03': ('hypothesis generated (framing, message, unit, tid, pid); oracle = independent ADU builder + bitwise CRC/LRC + whole-frame receive through a recording decoder proxy',
+            'Generated messages on all five framings, both decoder directions, all unit ids and transaction ids with '
+            'delimiter-biased payloads: buildPacket compared byte-for-byte with an independent ADU builder, then the packet '
+            'handed whole to a fresh framer whose decoder is a recording proxy (PDU bytes, unit/tid/pid, exactly one delivery, '
+            'empty buffer); checksum functions compared with a bitwise reference incl. all 65536/256 candidate check values.',
+            'Trusts vlib/refframe.py (self-checked on CRC/LRC/MBAP vectors); PDU bytes are pymodbus\' own (C01 owns them).',
+            'DESIGN.md 4 C03'),
     'C19': ('hypothesis generated typed-value sequences; oracle = round trip + independent layout function',
             'Generated-input search: thousands of typed value sequences x all four byte/word orders x both transports, '
             'each compared with an exact round trip and an independently written register-image function; plus a '
